@@ -238,6 +238,14 @@ def corr_pool(ctx: Ctx, im: Impl, D, dims, P, k, p, kind, block, flags, stats):
         ctx.violation("oracle", "GeometricImage.unpool is not nearest-neighbour unpooling", dict(full, op="unpool"))
     elif not (np.array_equal(m_un, i_un) and np.array_equal(m_unc, i_un)):
         ctx.violation("correspondence", "GeometricImage.unpool differs from Lean unpool / unpoolConv", dict(full, op="unpool"))
+    # the object-level methods must hand back the type they were given: the result of pooling / unpooling
+    # transforms with the SAME (k, parity), D and boundary flags
+    gi = im.geom.GeometricImage(im.jnp.array(block[0], dtype=im.jnp.float32), p, D, tuple(flags))
+    for opname, res in (("unpool", gi.unpool(P)), ("average_pool", gi.average_pool(P)), ("max_pool", gi.max_pool(P))):
+        if (res.parity, res.k, res.D, tuple(res.is_torus)) != (p % 2, k, D, tuple(flags)):
+            ctx.violation("oracle", f"GeometricImage.{opname} changes the declared type: (k,parity,D,is_torus) = "
+                          f"{(res.k, res.parity, res.D, tuple(res.is_torus))} for an input of type {(k, p, D, tuple(flags))}",
+                          dict(full, op=opname))
     # max_pool
     m_max = unarr(ctx.driver.call("c08.max_pool", d=D, P=P, block=jarr(block)))
     i_max = to_int(im.maxp(block, D, P))
@@ -417,6 +425,8 @@ def make_inputs(rng, sig, D, spatial, kind):
         shape = (c,) + tuple(spatial) + (D,) * k
         if kind == "zero":
             out[(k, p)] = np.zeros(shape, dtype=np.float32)
+        elif kind == "tiny":  # magnitudes comparable to the stabilising epsilon
+            out[(k, p)] = (rng.normal(size=shape) * 2e-5).astype(np.float32)
         else:  # constant over the pixels, generic over channels and tensor components
             v = rng.normal(size=(c,) + (1,) * D + (D,) * k).astype(np.float32)
             out[(k, p)] = np.array(np.broadcast_to(v, shape), dtype=np.float32)
@@ -566,6 +576,8 @@ def run_blocks(ctx: Ctx, stats):
             sig = equiv.signature([(kp, int(rng.integers(1, 4))) for kp in keys])
             actname = ACTS[it % len(ACTS)]
             kind = kinds_cycle[(it + 1) % len(kinds_cycle)]
+            if it == 1:
+                kind = "tiny"
             flags = tuple(bool(b) for b in rng.integers(0, 2, size=D))
             base = ml.VectorNeuronNonlinear(sig, D, activation(actname), key=random.PRNGKey(int(rng.integers(1 << 30))))
             layer = equiv.perturb(base, rng, 0.5)
@@ -578,7 +590,7 @@ def run_blocks(ctx: Ctx, stats):
         # ---- MaxNormPool on generic float inputs (no near ties)
         for it in range(n_mp[D]):
             P = 2
-            spatial = [(4, 6), (2, 4), (6, 2)][it % 3] if D == 2 else [(2, 4, 2), (2, 2, 4)][it % 2]
+            spatial = [(4, 6), (2, 4), (6, 2)][it % 3] if D == 2 else [(4, 4, 2), (2, 4, 4)][it % 2]
             keys = [(0, 0), (0, 1), (1, 0), (1, 1)] + ([(2, 0)] if D == 2 else [])
             sig = equiv.signature([(kp, int(rng.integers(1, 3))) for kp in keys])
             flags = tuple(bool(b) for b in rng.integers(0, 2, size=D))
